@@ -27,17 +27,23 @@ def _arr(vals, unit):
     return V.Variable(_arr=a, dims=('slit',), unit=V.parse_unit(unit), dtype=V.DType.float64)
 
 
-def _mk_chopper(sc, dc, ratio, sign, begins, ends, beam, phase, fp, angle_unit='rad', freq_unit='Hz'):
-    """Angles are given in turns (symbolic); presented in rad or deg.  frequency = sign*ratio*fp."""
+def _mk_chopper(sc, dc, ratio, sign, begins, ends, beam, phase, fp, angle_unit='rad', freq_unit='Hz', beam_int_deg=False):
+    """Angles are given in turns (symbolic); presented in rad or deg.  frequency = sign*ratio*fp.
+    beam_int_deg: the beam position is an INTEGER number of degrees (int64) while the other angles are in `angle_unit`."""
     from symex import core as C
     from .symutil import PI
 
     k = 2 * PI() if angle_unit == 'rad' else C.R.lift(360)
     fs = {'Hz': 1, 'kHz': Fraction(1, 1000)}[freq_unit]
+    if beam_int_deg:
+        from symsc import variable as V
+        beam_var = V.Variable(dims=(), values=beam * 360, unit=V.parse_unit('deg'), dtype=V.DType.int64)
+    else:
+        beam_var = sc.scalar(beam * k, unit=angle_unit)
     return dc.DiskChopper(
         axle_position=sc.vector([0.0, 0.0, 8.0], unit='m'),
         frequency=sc.scalar(sign * ratio * fp * fs, unit=freq_unit),
-        beam_position=sc.scalar(beam * k, unit=angle_unit),
+        beam_position=beam_var,
         phase=sc.scalar(phase * k, unit=angle_unit),
         slit_begin=_arr([b * k for b in begins], angle_unit),
         slit_end=_arr([e * k for e in ends], angle_unit))
@@ -110,7 +116,8 @@ def _openings_obligations(C, tag, obs, cands, case, opens, closes, begins, ends,
 
 
 def job_disk(j, seed):
-    ratio, sign, nsl, angle_unit, freq_unit = j
+    ratio, sign, nsl, angle_unit, freq_unit, *rest = j
+    beam_int = bool(rest and rest[0] == 'beam-int-deg')
     from symex import core as C
     from .symutil import fresh_run
 
@@ -118,11 +125,14 @@ def job_disk(j, seed):
     fresh_run()
     ratio = Fraction(ratio)
     obs, cands = [], []
-    tag = f'disk[ratio={ratio},sense={"cw" if sign < 0 else "acw"},slits={nsl},{angle_unit},{freq_unit}]'
-    case = {'kind': 'disk', 'ratio': str(ratio), 'sign': sign, 'nslits': nsl, 'angle_unit': angle_unit, 'freq_unit': freq_unit}
+    tag = f'disk[ratio={ratio},sense={"cw" if sign < 0 else "acw"},slits={nsl},{angle_unit},{freq_unit}{",beam position int64 deg" if beam_int else ""}]'
+    case = {'kind': 'disk', 'ratio': str(ratio), 'sign': sign, 'nslits': nsl, 'angle_unit': angle_unit, 'freq_unit': freq_unit, 'beam_int_deg': beam_int}
     begins = [C.sym_var(f'b{i}') for i in range(nsl)]
     ends = [C.sym_var(f'e{i}') for i in range(nsl)]
     beam, phase = C.sym_var('beam'), C.sym_var('phase')
+    if beam_int:
+        # a whole number of degrees: beam (in turns) = B / 360 with B a symbolic integer
+        beam = C.sym_var('beamdeg', is_int=True) / 360
     fp = C.sym_var('fp', sign='+')
     ass = _valid_slits(C, begins, ends)
     for a in ass:
@@ -130,7 +140,7 @@ def job_disk(j, seed):
     C.CTX.fork_timeout_ms = 3000
 
     def run():
-        ch = _mk_chopper(sc, dc, ratio, sign, begins, ends, beam, phase, fp, angle_unit, freq_unit)
+        ch = _mk_chopper(sc, dc, ratio, sign, begins, ends, beam, phase, fp, angle_unit, freq_unit, beam_int_deg=beam_int)
         pf = sc.scalar(fp, unit='Hz')
         return ch.time_offset_open(pulse_frequency=pf), ch.time_offset_close(pulse_frequency=pf), ch.open_duration(pulse_frequency=pf)
 
@@ -389,6 +399,7 @@ def run(chk):
     ratios = [1, 2, 3, Fraction(1, 2), Fraction(1, 3)] if chk.tier == 'quick' else [1, 2, 3, 4, 5, 8, Fraction(1, 2), Fraction(1, 3), Fraction(1, 4)]
     slits = [1, 2] if chk.tier == 'quick' else [1, 2, 3]
     jobs = [(r, s, n, 'rad', 'Hz') for r in ratios for s in (-1, 1) for n in slits]
+    jobs += [(1, 1, 1, 'rad', 'Hz', 'beam-int-deg'), (2, -1, 1, 'rad', 'Hz', 'beam-int-deg'), (1, -1, 1, 'deg', 'Hz', 'beam-int-deg')]
     run_jobs(chk, job_detuned, [(3, -1, 1), (2, 1, 1), ('1/2', 1, 1)] if chk.tier == 'quick' else [(n_, s_, 1) for n_ in (1, 2, 3, 5, '1/2', '1/3') for s_ in (-1, 1)] + [(2, 1, 2)])
     jobs += [(2, -1, 2, 'deg', 'kHz'), (1, 1, 1, 'deg', 'Hz')]
     run_jobs(chk, job_disk, jobs)
@@ -418,10 +429,11 @@ def replay_real(case):
 
     def disk_open(ch, t):
         # independent disk simulation: angle under the beam at time t (rad)
-        w = 2 * np.pi * ch.frequency.to(unit='Hz').value
-        a = ch.beam_position.to(unit='rad').value + ch.phase.to(unit='rad').value - w * t
-        b = ch.slit_begin.to(unit='rad').values
-        e = ch.slit_end.to(unit='rad').values
+        # (dtype first: scipp converts integer variables in integer arithmetic)
+        w = 2 * np.pi * ch.frequency.to(dtype='float64', copy=False).to(unit='Hz').value
+        a = ch.beam_position.to(dtype='float64', copy=False).to(unit='rad').value + ch.phase.to(dtype='float64', copy=False).to(unit='rad').value - w * t
+        b = ch.slit_begin.to(dtype='float64', copy=False).to(unit='rad').values
+        e = ch.slit_end.to(dtype='float64', copy=False).to(unit='rad').values
         for bi, ei in zip(b, e, strict=True):
             k = np.ceil((bi - a) / (2 * np.pi))
             if bi - 1e-9 <= a + 2 * np.pi * k <= ei + 1e-9:
@@ -455,8 +467,11 @@ def replay_real(case):
             fp = 14.0
             edges = np.sort(rng.uniform(0, 2 * np.pi, size=2 * nsl))
             off = rng.uniform(0, 1.0)
+            bp = sc.scalar(rng.uniform(0, 6), unit='rad')
+            if case.get('beam_int_deg'):
+                bp = sc.scalar(int(rng.integers(1, 359)), unit='deg')
             ch = DiskChopper(axle_position=sc.vector([0.0, 0.0, 8.0], unit='m'), frequency=sc.scalar(sign * ratio * fp, unit='Hz'),
-                             beam_position=sc.scalar(rng.uniform(0, 6), unit='rad'), phase=sc.scalar(rng.uniform(-20, 20), unit='rad'),
+                             beam_position=bp, phase=sc.scalar(rng.uniform(-20, 20), unit='rad'),
                              slit_begin=sc.array(dims=['slit'], values=edges[0::2] + off, unit='rad'), slit_end=sc.array(dims=['slit'], values=edges[1::2] + off, unit='rad'))
             pf = sc.scalar(fp, unit='Hz')
             if kind == 'disk':
